@@ -584,6 +584,7 @@ pub fn run(op: &str, a: &Args) -> Option<Outcome> {
         ["dom", "views_after_edits"] => Some(crate::ops_more::dom_after_edits(arg(a, "scenario"), "views")),
         ["dom", "keys_after_edits"] => Some(crate::ops_more::dom_after_edits(arg(a, "scenario"), "keys")),
         ["dom", "preorder_after_edits"] => Some(crate::ops_more::dom_after_edits(arg(a, "scenario"), "preorder")),
+        ["dom", "children_after_edits"] => Some(crate::ops_more::dom_after_edits(arg(a, "scenario"), "children")),
         _ => None,
     }
 }
@@ -735,7 +736,7 @@ pub fn grid(op: &str, limit: usize) -> (usize, Vec<(Args, Outcome)>) {
                 try_one(mk(&[("script", s.as_str())]), &mut n, &mut bad);
             }
         }
-        ["dom", "views_after_edits"] | ["dom", "keys_after_edits"] | ["dom", "preorder_after_edits"] => {
+        ["dom", "views_after_edits"] | ["dom", "keys_after_edits"] | ["dom", "preorder_after_edits"] | ["dom", "children_after_edits"] => {
             for sc in crate::ops_more::EDIT_SCENARIOS {
                 try_one(mk(&[("scenario", sc)]), &mut n, &mut bad);
             }
